@@ -224,6 +224,17 @@ impl PairSpace {
         a.raw_key(&self.alphabet.universe.paths, &mut bytes);
         bytes.extend_from_slice(b"#PAIR#");
         b.raw_key(&self.alphabet.universe.paths, &mut bytes);
+        if self.alphabet.setters {
+            // which timestamps carry the setters' instant is part of the state (a later setter may
+            // behave differently once an earlier one has written the same value)
+            for sys in [a, b] {
+                for (p, f) in sys.observe(&self.alphabet.universe.paths).time_flags() {
+                    bytes.extend_from_slice(p.as_bytes());
+                    bytes.push(f[0] as u8 + 2 * f[1] as u8 + 4 * f[2] as u8);
+                }
+                bytes.push(0xff);
+            }
+        }
         hash128(&bytes)
     }
     fn op_enabled(&self, op: &Op, before: &Snap) -> bool {
